@@ -1629,10 +1629,12 @@ func (c *DnsController) __updateDnsCacheDeadline(cacheKey string, host string, d
 	var fqdn string
 	if strings.HasSuffix(host, ".") {
 		fqdn = strings.ToLower(host)
-		host = host[:len(host)-1]
 	} else {
 		fqdn = dnsmessage.CanonicalName(host)
 	}
+	// Names compare case-insensitively: per-name settings (fixed_domain_ttl)
+	// are looked up by the lower-cased name, like the cache key.
+	host = strings.TrimSuffix(fqdn, ".")
 	// Bypass pure IP.
 	if _, err = netip.ParseAddr(host); err == nil {
 		return nil
